@@ -9,18 +9,24 @@
 #define OLD(e) __CPROVER_old(e)
 
 /* ---- C05: matching == "some current subscription is a prefix of the body" ----
- * for every list of <= 3 topics (empty topic, topics longer than the body,
- * duplicates, overlapping, arbitrary bytes) and every body. */
+ * for either context of the socket, every list of <= 3 topics (empty topic,
+ * topics longer than the body, duplicates, overlapping, arbitrary bytes) and
+ * every body.  (This contract also REPLACES the calls in sub0_recv_cb and
+ * sub0_ctx_unsubscribe: there the requires are checked at each call.) */
+#define SUB_IS_C0(ctx) ((ctx) == &g_s->master)
+#define SUB_ORACLE_OF(ctx, body, len)                                                                  \
+	(SUB_IS_C0(ctx) ? vp_sub_oracle(g_nt, g_t0, g_t1, g_t2, (body), (len))                             \
+	                : vp_sub_oracle(g_nu, g_u0, g_u1, g_u2, (body), (len)))
 static bool sub0_matches(sub0_ctx *ctx, uint8_t *body, size_t len)
-__CPROVER_requires(ctx == &g_s->master && SUB_TOPICS_ARE(ctx, g_nt, g_t0, g_t1, g_t2))
+__CPROVER_requires(SUB_IS_C0(ctx) || (g_nc == 2 && ctx == g_c1))
+__CPROVER_requires(SUB_IS_C0(ctx) ? SUB_TOPICS_ARE(ctx, g_nt, g_t0, g_t1, g_t2) : SUB_TOPICS_ARE(ctx, g_nu, g_u0, g_u1, g_u2))
 __CPROVER_requires(len == 0 || __CPROVER_is_fresh(body, len))
 __CPROVER_assigns()
-__CPROVER_ensures(RV == vp_sub_oracle(g_nt, g_t0, g_t1, g_t2, body, len))
+__CPROVER_ensures(RV == SUB_ORACLE_OF(ctx, body, len))
 /* spelled out: no subscription matches nothing, the empty subscription matches everything */
-__CPROVER_ensures(g_nt == 0 ==> !RV)
-__CPROVER_ensures(((g_nt > 0 && g_t0->len == 0) || (g_nt > 1 && g_t1->len == 0) || (g_nt > 2 && g_t2->len == 0)) ==> RV)
+__CPROVER_ensures((SUB_IS_C0(ctx) && g_nt == 0) ==> !RV)
+__CPROVER_ensures((SUB_IS_C0(ctx) && ((g_nt > 0 && g_t0->len == 0) || (g_nt > 1 && g_t1->len == 0) || (g_nt > 2 && g_t2->len == 0))) ==> RV)
 ;
-
 /* ---- C05/C15: arrival of a published message -------------------------------
  * Per context, independently of the other contexts:
  *   delivered  <=>  ORACLE (g_m0 / g_m1: some current topic of THAT context is a
